@@ -13,7 +13,7 @@ use serde_json::{json, Value};
 
 pub const FIELD_FORMS: &[&str] =
     &["none", "rename", "skip", "skip_serializing_if", "default", "default_path", "rename_default", "default_rename", "two_attrs", "validate_doc_rename", "ssi_path_default", "skip_default", "rename_then_default_attr", "rename_then_ssi_attr", "three_attrs_rename_mid", "rename_raw_literal"];
-pub const VARIANT_FORMS: &[&str] = &["none", "rename", "doc_rename", "two_attrs", "rename_then_alias_attr", "rename_raw_literal"];
+pub const VARIANT_FORMS: &[&str] = &["none", "rename", "doc_rename", "two_attrs", "rename_then_alias_attr", "rename_raw_literal", "skip"];
 
 pub const RENAMES: &[&str] = &[
     "userId", "user-id", "USER-ID", "with space", "rename_all", "skip", "quo\"te", "back\\slash", "ünï-cödé", "a.b", "123abc", "type", "rename", "skip_me", "x", "dollar$", "emoji😀",
@@ -442,7 +442,7 @@ fn random_types(t: &mut Tape) -> (Vec<TypeM>, &'static str) {
 pub fn run(ctx: &Ctx) {
     let validated = serde_names::validate();
     ctx.note("oracle_fixtures_validated", json!(validated));
-    ctx.set_rule("full grid: container rename_all in {none + 8 rules} x {struct field, enum variant} x item-level attribute forms (16 for fields, 6 for variants, one of them the rename as a raw string literal) x 14 identifier shapes x both modes, field visibility rotating over pub / private / pub(crate), the container attributes written in 7 rotating spellings (rename_all alone / before or after another key / in its own attribute before or after another one / beside a container-level rename / under a doc comment naming another rule), renames drawn from a pool of 20 strings; plus random types with random identifiers and random rename strings. evaluation = one item (field/variant) whose wire name is compared; non-trivial = container rule present or item-level attribute present; distinct by (rule, kind, form, identifier, rename, mode)");
+    ctx.set_rule("full grid: container rename_all in {none + 8 rules} x {struct field, enum variant} x item-level attribute forms (16 for fields, 7 for variants incl. skip, one of them the rename as a raw string literal) x 14 identifier shapes x both modes, field visibility rotating over pub / private / pub(crate), the container attributes written in 7 rotating spellings (rename_all alone / before or after another key / in its own attribute before or after another one / beside a container-level rename / under a doc comment naming another rule), renames drawn from a pool of 20 strings; plus random types with random identifiers and random rename strings. evaluation = one item (field/variant) whose wire name is compared; non-trivial = container rule present or item-level attribute present; distinct by (rule, kind, form, identifier, rename, mode)");
     ctx.set_exhaustive(false);
     ctx.assume("expected names come from a port of serde_derive's case rules, validated at start-up against types compiled with the real serde_derive");
     ctx.assume("default_field_case stays at its default (snake_case = identity)");
@@ -455,7 +455,7 @@ pub fn run(ctx: &Ctx) {
         }
     }
     ctx.enumerate("c06.grid", &keys, |(r, e, m)| json!({"rule": r, "is_enum": e, "mode": m}), |(r, e, m), stats| check_project(&grid_types(*r, *e), m, stats));
-    let cases = ctx.tier.pick(1000, 30000);
+    let cases = ctx.tier.pick(1000, 400000);
     ctx.search("c06.random", cases, 160, |tape, stats| {
         let (types, mode) = random_types(tape);
         check_project(&types, mode, stats)
